@@ -396,7 +396,14 @@ def rule_shared(run):
     shared_rule(run, ['fixed_format_file', 't2data', 't2incons', 'mulgrids'])
 
 
+def rule_memo(run):
+    run.rule('MEMO', 'a result remembered between calls (memo dictionary, caching decorator) is keyed by every parameter it depends on', floor=1)
+    from .memo import memo_rule
+    memo_rule(run, ['fixed_format_file'])
+
+
 def check(run):
+    run.guarded('MEMO', rule_memo)
     run.guarded('SHARED', rule_shared)
     run.guarded('LAY', rule_lay)
     run.guarded('FIT', rule_fit)
